@@ -306,6 +306,16 @@ Section FLIP.
     exists Rf. split; [|split; [apply flip_fwd | apply flip_bwd]].
     intros c m. apply Rf_main; auto using agree_refl, facts0, pos_ok0.
   Qed.
+  Theorem flip_bisimulation_data db da :
+    flip_data_check f db da = true ->
+    exists R, bisimulation M osem lv g f R /\
+      forall b i tb ta c m, nth_error db i = Some tb -> nth_error da i = Some ta ->
+        R (Run ta 0 (Some b) c m) (Run tb 0 (Some b) c m).
+  Proof.
+    intros H. unfold flip_data_check in H. apply (list_eqb_eq _ N_eqb_eq') in H. subst da. exists Rf. split.
+    - split; [|split; [apply flip_fwd | apply flip_bwd]]. intros c m. apply Rf_main; auto using agree_refl, facts0, pos_ok0.
+    - intros b i tb ta c m H1 H2. rewrite H1 in H2. inversion H2; subst. apply Rf_main; auto using agree_refl, facts0, pos_ok0.
+  Qed.
 End FLIP.
 
 Theorem flip_check_sound f g F :
